@@ -336,7 +336,7 @@ func (rn *runner) guard(what string, f func()) {
 func (rn *runner) launch() {
 	script, port := rn.script()
 	mode := map[string]string{"basic": "basic", "hook": "hook", "ctl": "direct"}[rn.sc.Kind]
-	if rn.sc.Kind == "ctl" && (rn.sc.Beh == "fmq" || rn.sc.Beh == "midstate" || rn.sc.Beh == "resetstuck") {
+	if rn.sc.Kind == "ctl" && (rn.sc.Beh == "fmq" || rn.sc.Beh == "midstate" || rn.sc.Beh == "resetstuck" || rn.sc.Beh == "slow") {
 		mode = "fairmq" // FairMQ transitioner: FairMQ state names, multi-step CONFIGURE / RESET
 	}
 	tci := map[string]interface{}{
@@ -506,7 +506,14 @@ func (rn *runner) step(st Step) {
 			time.Sleep(settle)
 		default:
 			r := st.R
-			rn.awaitNext("resp "+r, 8*time.Second, func(v *view) int { return v.nResp[r] })
+			wait := 8 * time.Second
+			if rn.sc.Beh == "slow" {
+				wait = 25 * time.Second // one step of its CONFIGURE takes 12 s
+			}
+			rn.awaitNext("resp "+r, wait, func(v *view) int { return v.nResp[r] })
+			if rn.sc.Beh == "slow" && r == "CONFIGURE" {
+				time.Sleep(3500 * time.Millisecond) // anything the device is still asked to do belongs to the record
+			}
 			if (r == "START" || r == "Trigger") && !ctl && rn.sc.Beh != "crash" {
 				// "running" means the child is set up (it has forked what it forks), not merely exec'ed
 				dl := time.Now().Add(8 * time.Second)
